@@ -37,9 +37,10 @@ type (
 	ESlice struct{ X, Lo, Hi Expr }
 	ECond  struct{ C, A, B Expr }
 	EQuant struct {
-		Forall bool
-		Vars   []Binder
-		Body   Expr
+		Forall   bool
+		Vars     []Binder
+		Body     Expr
+		Triggers [][]Expr
 	}
 	ETypeAssert struct { // x.(T) used as "dynamic type is T" payload access
 		X    Expr
@@ -259,8 +260,21 @@ func (p *parser) quant() Expr {
 		break
 	}
 	p.expectOp("::")
+	var trigs [][]Expr
+	for p.isOp("{") {
+		p.p++
+		var group []Expr
+		for !p.isOp("}") {
+			group = append(group, p.cond())
+			if p.isOp(",") {
+				p.p++
+			}
+		}
+		p.expectOp("}")
+		trigs = append(trigs, group)
+	}
 	body := p.expr()
-	return EQuant{Forall: q == "forall", Vars: vars, Body: body}
+	return EQuant{Forall: q == "forall", Vars: vars, Body: body, Triggers: trigs}
 }
 
 func (p *parser) iff() Expr {
